@@ -271,7 +271,7 @@ static void run_scenario(const Scenario& sc, const string& child) {
   bool se_eq = pattern_ok(se, 2);
   vt::J j;
   j.str("e", "run").str("api", sc.api).raw("prog", progj).num("payload", sc.payload).num("check", sc.check);
-  j.num("timeout", sc.timeout_usecs).str("delay", sc.delay).str("out", out);
+  j.num("timeout", min<long>(sc.timeout_usecs, 1000000000L)).str("delay", sc.delay).str("out", out);   // (capped for the checker's integers)
   j.num("so_len", (long long)so.size()).num("so_eq", so_eq).num("se_len", (long long)se.size()).num("se_eq", se_eq);
   j.num("status", status).num("fds_before", fds_before).num("fds_after", fds_after).num("zombies", zombies).num("alive", alive);
   j.num("got_n", got_n).num("got_ok", got_n < 0 || got_sum == exp_sum).num("has_cat", has_cat).str("what", what).raw("sys", "[" + g_sys + "]");
@@ -346,6 +346,10 @@ int main(int argc, char** argv) {
   // timeouts: a child that outlives the deadline is ended
   all.push_back({"run_process", P{{"w1", 10}, {"s", 5000}, {"x", 0}}, -1, false, 300000, "none"});
   all.push_back({"run_process", P{{"w1", 10}, {"s", 5000}, {"x", 0}}, -1, true, 300000, "none"});
+  // deadlines far in the future (beyond 2^32 us = 71.6 min, with a small low word): the child simply runs to its end
+  all.push_back({"run_process", P{{"w1", 10}, {"s", 1500}, {"w1", 5}, {"w2", 7}, {"x", 0}}, -1, true, 4294967296L + 200000, "none"});
+  all.push_back({"run_process", P{{"rall", 0}, {"rep", 0}, {"s", 1200}, {"w1", 100}, {"x", 3}}, 5000, false, 2 * 4294967296L + 1, "none"});
+  all.push_back({"communicate", P{{"cat", 0}, {"rep", 0}, {"s", 1200}, {"x", 0}}, 3000, false, 4294967296L + 100000, "none"});
   // a chatty child (output more often than the poll timeout, so every poll returns an event) is ended by the deadline too
   {
     P chatty;
